@@ -103,10 +103,13 @@ def mechPrim (s : St) (p : String × Nat × Nat × Int) : St :=
   | ("mv", to, frm, _) =>
       if s.len ≤ frm then s.step (.del to) else
       let s1 := s.step (.get frm)
-      let v := match s1.cacheGet frm with
-        | some w => s1.readW w
-        | none => s1.slot frm
-      s1.step (.set to v)
+      -- objectGoSliceReflect._putIdx grows BEFORE the source wrapper's value is converted (only visible in a stale
+      -- state after a Go-side re-allocation, where the grow re-points the stale wrapper)
+      let s2 := if !s1.fixed && decide (s1.len ≤ to) then s1.grow (to + 1) else s1
+      let v := match s2.cacheGet frm with
+        | some w => s2.readW w
+        | none => s2.slot frm
+      s2.step (.set to v)
   | ("rv", lo, up, _) =>
       -- arrayproto_reverse_generic_step (builtin_array.go:963): both values are read (as wrappers) first, then stored
       let s1 := (s.step (.get lo)).step (.get up)
